@@ -177,6 +177,131 @@ def h2_controls(timeout=100, **kw):
     return core.run_symx("H2_xml", fn, [cv.XMLConverter.receive_layout, cv.XMLConverter.write_text], {"glyph text": "a + one of U+0000..U+001F, U+007F + b", "strip_control": "on"}, timeout, concretize=conc)
 
 
+# ------------------------------------------------------------------------------------------ H4 every kind of layout item
+KINDS = ["hbox", "vbox", "figure", "nested", "rect", "line", "curve", "image", "bareline"]
+
+
+def build_item(kind, k):
+    """one top-level item of the given kind (k makes boxes and names distinct); returns (item, expected structure)
+    expected structure: nested tuples (tag, {attribute: value} for the attributes checked, [children])"""
+    import pdfminer.layout as lt
+    if kind in ("hbox", "vbox"):
+        box = (lt.LTTextBoxVertical if kind == "vbox" else lt.LTTextBoxHorizontal)()
+        line = (lt.LTTextLineVertical if kind == "vbox" else lt.LTTextLineHorizontal)(0.1)
+        line.add(mkchar("a<", "F&%d" % k, 6 * k))
+        lt.LTContainer.add(line, lt.LTAnno("\n"))
+        box.add(line)
+        box.index = k
+        attrs = {"id": str(k)}
+        if kind == "vbox":
+            attrs["wmode"] = "vertical"
+        glyph = ("text", {"font": "F&%d" % k, "size": "10.000", "#text": "a<"}, [])
+        return box, ("textbox", attrs, [("textline", {}, [glyph, ("text", {"#text": "\n"}, [])])])
+    if kind == "bareline":                      # a text line directly on the page (what analysis leaves of an empty line)
+        line = lt.LTTextLineHorizontal(0.1)
+        line.add(mkchar(" ", "F", 6 * k))
+        lt.LTContainer.add(line, lt.LTAnno("\n"))
+        return line, ("textline", {}, [("text", {"font": "F", "#text": " "}, []), ("text", {"#text": "\n"}, [])])
+    if kind == "figure":
+        fig = lt.LTFigure('Fm"%d' % k, (0, 0, 10, 10), (1, 0, 0, 1, 0, 0))
+        fig.add(mkchar("f", "F", 0))
+        return fig, ("figure", {"name": 'Fm"%d' % k}, [("text", {"font": "F", "#text": "f"}, [])])
+    if kind == "nested":
+        outer = lt.LTFigure("Out%d" % k, (0, 0, 20, 20), (1, 0, 0, 1, 0, 0))
+        inner = lt.LTFigure("In%d" % k, (0, 0, 10, 10), (1, 0, 0, 1, 0, 0))
+        inner.add(lt.LTRect(2, (1, 1, 3, 3)))
+        outer.add(inner)
+        outer.add(mkchar("g", "F", 0))
+        return outer, ("figure", {"name": "Out%d" % k}, [("figure", {"name": "In%d" % k}, [("rect", {"linewidth": "2"}, [])]), ("text", {"font": "F", "#text": "g"}, [])])
+    if kind == "rect":
+        return lt.LTRect(1, (1, 1, 5, 5)), ("rect", {"linewidth": "1", "bbox": "1.000,1.000,5.000,5.000"}, [])
+    if kind == "line":
+        return lt.LTLine(3, (1, 2), (7, 2)), ("line", {"linewidth": "3", "bbox": "1.000,2.000,7.000,2.000"}, [])
+    if kind == "curve":
+        return lt.LTCurve(1, [(0, 0), (4, 6), (8, 0)]), ("curve", {"linewidth": "1", "pts": "0.000,0.000,4.000,6.000,8.000,0.000"}, [])
+    if kind == "image":
+        from pdfminer.pdftypes import PDFStream
+        img = lt.LTImage("Im%d" % k, PDFStream({"Width": 4, "Height": 2, "BitsPerComponent": 8}, b"\0" * 8), (0, 0, 4, 2))
+        return img, ("image", {"width": "4", "height": "2"}, [])
+    raise KeyError(kind)
+
+
+def match_structure(el, exp, path="page"):
+    tag, attrs, kids = exp
+    if el.tag != tag:
+        return "%s: element <%s> where the tree has a %s" % (path, el.tag, tag)
+    for a, v in attrs.items():
+        got = (el.text or "") if a == "#text" else el.get(a)
+        if got != v:
+            return "%s/%s: %s reads %r, the tree has %r" % (path, tag, a, got, v)
+    if tag == "textbox" and "wmode" not in attrs and el.get("wmode") is not None:
+        return "%s: horizontal text box carries wmode=%r" % (path, el.get("wmode"))
+    sub = list(el)
+    if len(sub) != len(kids):
+        return "%s/%s: %d child elements, the tree has %d members" % (path, tag, len(sub), len(kids))
+    for i, (c, k) in enumerate(zip(sub, kids)):
+        r = match_structure(c, k, "%s/%s[%d]" % (path, tag, i))
+        if r:
+            return r
+    return None
+
+
+def shapes_case(kinds, groups):
+    """page holding one item per kind (in that order); groups: None / 'flat' / 'nested' layout section over the text boxes"""
+    import pdfminer.layout as lt
+    pg = lt.LTPage(3, (0, 0, 100, 100))
+    exp = []
+    boxes = []
+    for k, kind in enumerate(kinds):
+        it, e = build_item(kind, k)
+        pg.add(it)
+        exp.append(e)
+        if kind in ("hbox", "vbox"):
+            boxes.append(it)
+    if groups and boxes:
+        if groups == "nested" and len(boxes) >= 2:
+            g = lt.LTTextGroupLRTB([lt.LTTextGroupTBRL(boxes[:1]), boxes[1]] + boxes[2:])
+            ge = ("textgroup", {}, [("textgroup", {}, [("textbox", {"id": str(boxes[0].index)}, [])])] + [("textbox", {"id": str(b.index)}, []) for b in boxes[1:]])
+        else:
+            g = lt.LTTextGroupLRTB(boxes)
+            ge = ("textgroup", {}, [("textbox", {"id": str(b.index)}, []) for b in boxes])
+        pg.groups = [g]
+        exp.append(("layout", {}, [ge]))
+    else:
+        pg.groups = None
+    return pg, ("page", {"id": "3", "rotate": "0"}, exp)
+
+
+def h4_shapes(n=3, timeout=200, part=None, **kw):
+    """pages built from every sequence of n item kinds (horizontal / vertical text box, figure, nested figure, rect, line, curve, image, bare text line), with or without a
+    layout section: the XML parses and has exactly the tree's structure (tags, nesting, order, ids, wmode, names, line widths, points); the text output is the in-order text"""
+    import pdfminer.converter as cv
+
+    def fn(ex):
+        kinds = [KINDS[ex.choice(len(KINDS), "k%d" % i)] for i in range(n)]
+        groups = [None, "flat", "nested"][ex.choice(3, "groups")]
+        sink = ["text", "bytes"][ex.choice(2, "sink")]
+        info = {"kinds": kinds, "groups": groups, "sink": sink}
+        pg, exp = shapes_case(kinds, groups)
+        try:
+            xml = xml_of(pg, sink)
+        except Exception as e:
+            ex.require(False, "XMLConverter raised %s: %s" % (type(e).__name__, e), **info)
+        try:
+            root = ET.fromstring(xml.split("?>", 1)[1] if xml.startswith("<?xml") else xml)
+        except ET.ParseError as e:
+            ex.require(False, "XML output is not well-formed: %s" % e, **info)
+        pages = list(root)
+        ex.require(root.tag == "pages" and len(pages) == 1, "root is <%s> with %d children" % (root.tag, len(pages)), **info)
+        r = match_structure(pages[0], exp)
+        ex.require(r is None, r or "", **info)
+
+    def conc(m, info):
+        return info
+    return core.run_symx("H4_shapes", fn, [cv.XMLConverter.receive_layout], {"page": "every sequence of %d items from %s" % (n, KINDS), "layout section": "absent / flat / nested groups", "sink": "text / binary utf-8"},
+                         timeout, concretize=conc, part=part)
+
+
 def h1_enc(maxlen=3, timeout=100, part=None, **kw):
     import pdfminer.utils as u
 
@@ -237,6 +362,21 @@ def h3_text(maxlen=2, timeout=200, part=None, **kw):
 
 def replay(harness, inp):
     import pdfminer.utils as u
+    if harness == "H4_shapes":
+        pg, exp = shapes_case(inp["kinds"], inp["groups"])
+        desc = "page with items %r, layout section %r, %s sink" % (inp["kinds"], inp["groups"], inp["sink"])
+        try:
+            xml = xml_of(pg, inp["sink"])
+        except Exception as e:
+            return "%s: XMLConverter raised %r" % (desc, e)
+        try:
+            root = ET.fromstring(xml.split("?>", 1)[1] if xml.startswith("<?xml") else xml)
+        except ET.ParseError as e:
+            return "%s: XML output is not well-formed: %s\n%s" % (desc, e, xml[:500])
+        if root.tag != "pages" or len(list(root)) != 1:
+            return "%s: root <%s> with %d children" % (desc, root.tag, len(list(root)))
+        r = match_structure(list(root)[0], exp)
+        return None if r is None else "%s: %s" % (desc, r)
     if harness == "H1_enc":
         s = inp["s"]
         out = u.enc(s)
@@ -295,6 +435,7 @@ def jobs(tier):
     ml = 3 if tier == "quick" else 4
     t = 300 if tier == "quick" else 1800
     J = [Job("H1_enc", "h1_enc", {"maxlen": 3 if tier == "quick" else 4}, t, "H1_enc"), Job("H2_xml:controls", "h2_controls", {}, 100, "H2_xml")]
+    J += [Job("H4_shapes:%d" % k, "h4_shapes", {"n": 3 if tier == "quick" else 4, "part": [k, 4, 6]}, t, "H4_shapes") for k in range(4)]
     for k in range(8):
         J.append(Job("H2_xml:%d" % k, "h2_xml", {"maxlen": ml, "part": [k, 8, 9]}, t, "H2_xml"))
     for k in range(7):
